@@ -284,7 +284,11 @@ def run(ctx):
         if not ok:
             continue
         try:
-            with built.ix.searcher() as s:
+            psz = model.partsize_for(idx)
+            if psz is not None:
+                ctx.count("c11.small_array_parts")
+                wb["array_partsize(default of ArrayUnionMatcher)"] = psz
+            with model.array_partsize(psz), built.ix.searcher() as s:
                 for _ in range(12):
                     if nested and rng.random() < 0.7:
                         from whoosh import query
